@@ -20,6 +20,19 @@ type fileMetadata struct { //nolint:unused
 }
 
 func (s *fileMetadata) Save(state map[uint16]*models.CheckpointDocument, _ map[uint16]bool, _ string) error { //nolint:unused
+	// vBuckets the caller does not hand over keep what the file holds for them: the stream saves whatever its offset
+	// table contains, and while it is closed for a rebalance that table is empty or holds late acknowledgements only
+	if old, err := os.ReadFile(s.fileName); err == nil {
+		kept := map[uint16]*models.CheckpointDocument{}
+		if sonic.Unmarshal(old, &kept) == nil {
+			for vbID, doc := range kept {
+				if _, ok := state[vbID]; !ok {
+					state[vbID] = doc
+				}
+			}
+		}
+	}
+
 	file, _ := sonic.MarshalIndent(state, "", "  ")
 	_ = os.WriteFile(s.fileName, file, 0o644) //nolint:gosec
 	return nil
